@@ -1,10 +1,220 @@
 /-
   C06 — property theorems only (helper lemmas live in Lemmas*.lean).
--/
-import NdnVerif.C06.Model
-namespace Ndn.C06
 
-theorem placeholder_init (n : Ndn.Name) : Spec.init.fibAt n = [] := by
-  simp [Spec.init, Spec.fibAt, flatten, Spec.routesAt, C05.afind]
+  Objects (Model.lean / Spec.lean / LemmasHist.lean):
+    runSt d ops     the RIB model and the abstract FIB it writes to, after the history `ops` of
+                    register / re-register / unregister / face clean-up operations
+    runSpec ops     the specification's route map (prefix ↦ routes) after `ops`
+    flatten R p     the property's flattening: nothing if `p` has no routes, otherwise own routes
+                    plus (unless `p` holds a capture route) the child-inherit routes of shorter
+                    prefixes, nearest first, up to and including the nearest one holding a capture
+                    route; each face at its minimum cost
+    fibCalls ops    every call the RIB made to `FibStrategyTable` during `ops`
+  Histories are arbitrary (no bound on length, depth, faces, origins, costs, flags).
+-/
+import NdnVerif.C06.LemmasHist
+import NdnVerif.C05.Props
+namespace Ndn.C06
+open Ndn.C05
+
+/-! ## the specification's pieces mean what the property says -/
+
+/-- "each face at the minimum cost among the contributing routes": `(f, c)` is in `minCost rs` iff
+    some route of `rs` has face `f` and cost `c`, and no route of `rs` with face `f` is cheaper;
+    every face occurs once. -/
+theorem minCost_is_min_per_face (rs : List Route) (f c : Nat) :
+    ((f, c) ∈ minCost rs ↔ (∃ r ∈ rs, r.face = f ∧ r.cost = c) ∧ ∀ r ∈ rs, r.face = f → c ≤ r.cost) ∧
+    KeysNodup (minCost rs) := by
+  obtain ⟨hn, hf⟩ := minCost_inv rs
+  refine ⟨?_, hn⟩
+  rw [mem_iff_afind hn]
+  have h := hf f
+  constructor
+  · intro e; rw [e] at h; exact h
+  · rintro ⟨⟨r, hr, e1, e2⟩, hmin⟩
+    cases ha : afind (minCost rs) f with
+    | none => rw [ha] at h; exact absurd e1 (h r hr)
+    | some c' =>
+      rw [ha] at h
+      obtain ⟨⟨r', hr', e1', e2'⟩, hmin'⟩ := h
+      have a := hmin r' hr' e1'
+      have b := hmin' r hr e1
+      congr 1; omega
+
+example : minCost [⟨7, 0, 10, 1⟩, ⟨8, 0, 5, 1⟩, ⟨7, 255, 3, 0⟩] = [(7, 3), (8, 5)] := by decide
+
+/-- "inheritance by longer prefixes stops at, and includes, the nearest shorter prefix holding a
+    capture route; a prefix holding a capture route inherits nothing; prefixes without routes
+    contribute nothing": every contributing route of `p` is registered on a prefix `p.take j` of
+    `p`; if it is not one of `p`'s own routes then it is child-inherit, `p` holds no capture route
+    and no prefix strictly between holds a capture route. -/
+theorem contributing_sound (R : Name → List Route) (p : Name) (rt : Route) (h : rt ∈ contributing R p) :
+    rt ∈ R p ∨ ((R p).any Route.capture = false ∧ ∃ j, j < p.length ∧ rt ∈ R (p.take j) ∧ rt.childInherit = true ∧
+      ∀ i, j < i → i < p.length → (R (p.take i)).any Route.capture = false) := by
+  simp only [contributing, List.mem_append] at h
+  rcases h with h | h
+  · exact Or.inl h
+  · right
+    cases hc : (R p).any Route.capture with
+    | true => simp [hc] at h
+    | false =>
+      simp only [hc, Bool.false_eq_true, if_false] at h
+      refine ⟨rfl, ?_⟩
+      -- walk the definition of `inherited`
+      have key : ∀ k, rt ∈ inherited R p k → ∃ j, j < k ∧ rt ∈ R (p.take j) ∧ rt.childInherit = true ∧
+          ∀ i, j < i → i < k → (R (p.take i)).any Route.capture = false := by
+        intro k
+        induction k with
+        | zero => intro h; simp [inherited] at h
+        | succ k ih =>
+          intro h
+          simp only [inherited, List.mem_append, List.mem_filter] at h
+          rcases h with h | h
+          · exact ⟨k, by omega, h.1, h.2, by intro i h1 h2; omega⟩
+          · cases hk : (R (List.take k p)).any Route.capture with
+            | true => simp [hk] at h
+            | false =>
+              simp only [hk, Bool.false_eq_true, if_false] at h
+              obtain ⟨j, h1, h2, h3, h4⟩ := ih h
+              refine ⟨j, by omega, h2, h3, ?_⟩
+              intro i a b
+              by_cases hik : i = k
+              · subst hik; exact hk
+              · exact h4 i a (by omega)
+      exact key p.length h
+
+/-- and conversely every such route does contribute (completeness of the flattening) -/
+theorem contributing_complete (R : Name → List Route) (p : Name) (rt : Route) :
+    (rt ∈ R p → rt ∈ contributing R p) ∧
+    ((R p).any Route.capture = false → ∀ j, j < p.length → rt ∈ R (p.take j) → rt.childInherit = true →
+      (∀ i, j < i → i < p.length → (R (p.take i)).any Route.capture = false) → rt ∈ contributing R p) := by
+  constructor
+  · intro h; simp [contributing, h]
+  · intro hc j hj hm hci hno
+    simp only [contributing, List.mem_append, hc, Bool.false_eq_true, if_false]
+    right
+    have key : ∀ k, j < k → k ≤ p.length → rt ∈ inherited R p k := by
+      intro k
+      induction k with
+      | zero => intro h; omega
+      | succ k ih =>
+        intro h1 h2
+        simp only [inherited, List.mem_append, List.mem_filter]
+        by_cases hjk : j = k
+        · subst hjk; exact Or.inl ⟨hm, hci⟩
+        · right
+          rw [hno k (by omega) (by omega)]
+          simp only [Bool.false_eq_true, if_false]
+          exact ih (by omega) (by omega)
+    exact key p.length hj (Nat.le_refl _)
+
+example : flatten (fun n => if n = [] then [⟨8, 0, 5, 1⟩] else if n = [⟨8, [97]⟩] then [⟨9, 0, 3, 3⟩]
+    else if n = [⟨8, [97]⟩, ⟨8, [98]⟩] then [⟨7, 0, 1, 0⟩] else []) [⟨8, [97]⟩, ⟨8, [98]⟩] = [(7, 1), (9, 3)] := by decide
+
+/-! ## the FIB is the flattening of the registered routes, after every history -/
+
+/-- **C06.** After any history of registrations, re-registrations, unregistrations and face
+    clean-ups, the FIB's next hops at *every* prefix `p` are exactly `flatten` of the currently
+    registered routes: nothing when `p` has no routes (in particular nothing at the root unless
+    registered there), otherwise own + inherited routes at minimum cost per face. -/
+theorem rib_fib_eq_flatten (d : Name) (ops : List Op) (p : Name) :
+    (runSt d ops).fib.nhAt p = flatten (runSpec ops).routesAt p := by
+  obtain ⟨hi, _, hr⟩ := run_rel d ops
+  rw [hi.fib p]
+  have : (runSt d ops).rib.routesAt = (runSpec ops).routesAt := funext hr
+  rw [this]
+
+example : (runSt [] [.reg [⟨8, [97]⟩, ⟨8, [98]⟩, ⟨8, [99]⟩] ⟨7, 0, 10, 1⟩, .reg [⟨8, [97]⟩] ⟨8, 0, 5, 1⟩]).fib.nhAt [] = [] := by decide
+example : (runSt [] [.reg [⟨8, [97]⟩, ⟨8, [98]⟩, ⟨8, [99]⟩] ⟨7, 0, 10, 1⟩, .reg [⟨8, [97]⟩] ⟨8, 0, 5, 1⟩]).fib.nhAt
+    [⟨8, [97]⟩, ⟨8, [98]⟩, ⟨8, [99]⟩] = [(7, 10), (8, 5)] := by decide
+
+/-- the RIB holds exactly the registered routes (`Rib.GetAllEntries` = the route map) -/
+theorem rib_routes_eq_spec (d : Name) (ops : List Op) :
+    (∀ p, (runSt d ops).rib.routesAt p = (runSpec ops).routesAt p) ∧
+    (∀ e, e ∈ (runSt d ops).rib.list ↔ e ∈ (runSpec ops).listRib) := by
+  obtain ⟨hi, si, hr⟩ := run_rel d ops
+  refine ⟨hr, ?_⟩
+  rintro ⟨n, rs⟩
+  rw [Rib.mem_list hi.rib, Spec.mem_listRib si, hr]
+
+/-- next-hop lookups through the FIB are longest-prefix match over the flattened entries -/
+theorem rib_lookup_eq_spec (d : Name) (ops : List Op) (name : Name) :
+    (runSt d ops).fib.lpmNextHops name = (runSpec ops).lookup name := by
+  unfold C05.Spec.lpmNextHops Spec.lookup Spec.fibAt
+  exact lpm_congr _ _ _ _ _ _ Eq name (fun n => by rw [rib_fib_eq_flatten]) (fun n => rib_fib_eq_flatten d ops n) rfl _
+
+/-- the FIB listing contains exactly the prefixes that have routes, each with its flattening
+    (so "prefixes without routes contribute nothing", "nothing in the root entry that was not
+    registered there") -/
+theorem rib_fib_listing_exact (d : Name) (ops : List Op) (p : Name) (hops : Hops) :
+    (p, hops) ∈ (runSt d ops).fib.listFib ↔ (runSpec ops).routesAt p ≠ [] ∧ hops = flatten (runSpec ops).routesAt p := by
+  obtain ⟨hi, _, _⟩ := run_rel d ops
+  rw [C05.Spec.mem_listFib hi.fibInv, rib_fib_eq_flatten]
+  constructor
+  · rintro ⟨hne, e⟩
+    refine ⟨?_, e.symm⟩
+    intro hr
+    rw [flatten_of_no_routes _ _ hr] at e
+    exact hne e.symm
+  · rintro ⟨hr, e⟩
+    exact ⟨e ▸ flatten_ne_nil _ _ hr, e.symm⟩
+
+example : (runSt [] [.reg [] ⟨8, 0, 1, 1⟩, .reg [⟨8, [97]⟩] ⟨9, 0, 2, 0⟩, .unreg [⟨8, [97]⟩] 9 0]).fib.listFib = [([], [(8, 1)])] := by decide
+
+/-! ## nothing derived from a removed route or face remains -/
+
+/-- every next hop in the FIB derives from a route that is registered *now* on a prefix of the
+    entry's name — so once a route is removed, no next hop derived from it remains anywhere -/
+theorem fib_hop_derives_from_live_route (d : Name) (ops : List Op) (p : Name) (f c : Nat)
+    (h : (f, c) ∈ (runSt d ops).fib.nhAt p) :
+    ∃ j, j ≤ p.length ∧ ∃ rt ∈ (runSpec ops).routesAt (p.take j), rt.face = f ∧ rt.cost = c := by
+  rw [rib_fib_eq_flatten] at h
+  unfold flatten at h
+  split at h
+  · cases h
+  · obtain ⟨⟨rt, hrt, e1, e2⟩, _⟩ := ((minCost_is_min_per_face _ f c).1).mp h
+    obtain ⟨j, hj, hm⟩ := mem_contributing hrt
+    exact ⟨j, hj, rt, hm, e1, e2⟩
+
+/-- after a face is cleaned up no next hop to it remains anywhere in the FIB, and no route of it
+    remains in the RIB (all origins, all entries including the root) -/
+theorem cleanup_leaves_no_trace (d : Name) (ops : List Op) (face : Nat) :
+    (∀ p c, (face, c) ∉ (runSt d (ops ++ [.cleanup face])).fib.nhAt p) ∧
+    (∀ p, ∀ rt ∈ (runSt d (ops ++ [.cleanup face])).rib.routesAt p, rt.face ≠ face) := by
+  obtain ⟨_, si, _⟩ := run_rel d ops
+  have hno : ∀ p, ∀ rt ∈ (runSpec (ops ++ [.cleanup face])).routesAt p, rt.face ≠ face := by
+    intro p rt hrt
+    rw [runSpec_snoc, Spec.routesAt_apply si] at hrt
+    simp only [List.mem_filter, Bool.not_eq_eq_eq_not, Bool.not_true, beq_eq_false_iff_ne] at hrt
+    exact hrt.2
+  constructor
+  · intro p c hm
+    obtain ⟨j, _, rt, hrt, e1, _⟩ := fib_hop_derives_from_live_route d _ p face c hm
+    exact hno _ rt hrt e1
+  · intro p rt hrt
+    rw [(rib_routes_eq_spec d _).1 p] at hrt
+    exact hno p rt hrt
+
+example : (runSt [] [.reg [⟨8, [97]⟩] ⟨8, 0, 5, 1⟩, .reg [⟨8, [97]⟩] ⟨8, 255, 7, 1⟩, .reg [] ⟨8, 65, 2, 0⟩,
+    .reg [⟨8, [97]⟩, ⟨8, [98]⟩] ⟨9, 0, 1, 1⟩, .cleanup 8]).fib.listFib = [([⟨8, [97]⟩, ⟨8, [98]⟩], [(9, 1)])] := by decide
+
+/-! ## against both FIB implementations -/
+
+/-- The abstract FIB of the model is the C05 abstract table after the calls the RIB made; hence
+    (C05 `tree_refines_spec`, `hash_refines_spec`) driving the name-tree FIB or the hash-table FIB
+    (any `m ≥ 1`) with those calls makes every lookup return the flattening's longest-prefix
+    match: equal lists for the tree, equal (face, cost) sets for the hash table. -/
+theorem rib_over_both_fibs (d : Name) (ops : List Op) (name : Name) :
+    (C05.runTree d (fibCalls ops)).findNextHops name = (runSpec ops).lookup name ∧
+    ∀ m, 1 ≤ m → ∀ x, x ∈ (C05.runHash m d (fibCalls ops)).findNextHops name ↔ x ∈ (runSpec ops).lookup name := by
+  have hfib : (runSt d ops).fib = C05.runSpec d (fibCalls ops) := by rw [runSt_eq]
+  have hl := rib_lookup_eq_spec d ops name
+  rw [hfib] at hl
+  refine ⟨by rw [(C05.tree_refines_spec d (fibCalls ops) name).1, hl], ?_⟩
+  intro m hm x
+  rw [(C05.hash_refines_spec m hm d (fibCalls ops) name).1 x, hl]
+
+example : (C05.runHash 2 [] (fibCalls [.reg [⟨8, [97]⟩, ⟨8, [98]⟩, ⟨8, [99]⟩] ⟨7, 0, 10, 1⟩, .reg [⟨8, [97]⟩] ⟨8, 0, 5, 1⟩,
+    .unreg [⟨8, [97]⟩, ⟨8, [98]⟩, ⟨8, [99]⟩] 7 0])).findNextHops [⟨8, [97]⟩, ⟨8, [98]⟩, ⟨8, [99]⟩] = [(8, 5)] := by decide
 
 end Ndn.C06
